@@ -108,7 +108,8 @@ class Influence:
                     W.add(_vname(rv))
             # index expressions and the rhs are reads
             wnodes.append(l)
-        R |= _names(x, self.rrp)
+        # reads: through the references to earlier elements as well (`v = [call element]` reads what the call reads)
+        R |= _names(cfg.resolve(x), self.rrp)
         # calls: pointer arguments to non-const parameters are written
         for c in calls(x):
             fl = self.prog.functions.get(c.get("fn") or "", [])
